@@ -57,7 +57,9 @@ def _alarm(_signum, _frame):
 def run_one(prop, plan, sched, verbose=False):
     ''' Execute one plan under the watchdog; returns (run, violations). '''
     signal.signal(signal.SIGALRM, _alarm)
-    signal.setitimer(signal.ITIMER_REAL, WATCHDOG_S)
+    # per-run wall-clock watchdog against a callback that never returns; runs that legitimately make hundreds of
+    # evaluations (fault enumeration) declare a longer one
+    signal.setitimer(signal.ITIMER_REAL, getattr(prop, 'WATCHDOG_S', WATCHDOG_S))
     gc_was = gc.isenabled()
     gc.disable()
     from . import boot
@@ -68,6 +70,10 @@ def run_one(prop, plan, sched, verbose=False):
         signal.setitimer(signal.ITIMER_REAL, 0)
         if gc_was:
             gc.enable()
+        # scratch directory of the file-based D-Bus methods (whichever engine used it, however the run ended)
+        pair = sys.modules.get('scenarios.tcpcl_pair')
+        if pair is not None:
+            pair._cleanup_workdir()
     viols = prop.judge(run)
     return (run, viols)
 
@@ -103,6 +109,12 @@ def _worker(args):
         index = start + ix * stride
         try:
             res = run_seed(prop, tier, base_seed, index)
+        except CallbackHang:
+            # the watchdog fired outside the places where a scenario turns it into a verdict: the run is abandoned
+            # and counted as capped (wall-clock, e.g. a loaded machine), not judged
+            out['capped'] += 1
+            out['counters']['runner.watchdog_abandoned'] = out['counters'].get('runner.watchdog_abandoned', 0) + 1
+            continue
         except (HarnessError, Exception) as err:  # pylint: disable=broad-except
             out['harness_errors'].append((index, '%s: %s' % (type(err).__name__, err),
                                           traceback.format_exc()[-2000:]))
@@ -164,7 +176,7 @@ def run_batch(prop_id, tier, base_seed, budget_s, workers, max_cases=None, chunk
                 break
         while pending:
             (done, pending_now) = concurrent.futures.wait(
-                pending, timeout=WATCHDOG_S * 3, return_when=concurrent.futures.FIRST_COMPLETED)
+                pending, timeout=getattr(prop, 'WATCHDOG_S', WATCHDOG_S) * max(3, chunk) + 60, return_when=concurrent.futures.FIRST_COMPLETED)
             if not done:
                 total['harness_errors'].append((-1, 'worker timeout', ''))
                 for fut in pending_now:
